@@ -149,11 +149,13 @@ Theorem C16_sequential_no_orphans : forall ops urls c, orphan (snd (p_run (urls,
 Proof. exact sequential_no_orphans_init. Qed.
 Print Assumptions C16_sequential_no_orphans.
 
-(* Remark (schedules are outside C16's quantifier; reproduced on the real pool, F-C16-1):
-   Get reads the map and stores the dialled connection in two separate critical sections.
-   Schedule [read A; read B; dial+store A; dial+store B] of two first calls for one backend:
-   both dial, B's store overwrites A's, and connection 0 is live, in nobody's pool, and stays
-   so under every later history of calls, table changes, ticks and shutdowns. *)
+(* The UNREPAIRED Get (before /repo 8fc2c4a "fix: concurrent first gRPC calls to one backend leak
+   connections"; F-C16-1, reproduced on the real pool before the repair): the map was read and
+   the dialled connection stored (Set) in two separate critical sections.  Schedule
+   [read A; read B; dial+store A; dial+store B] of two first calls for one backend: both dial,
+   B's store overwrites A's, and connection 0 is live, in nobody's pool, and stays so under
+   every later history of calls, table changes, ticks and shutdowns.  [run2]/[thread_step] are
+   the unrepaired variant of the model ([p_dial_set]); schedules are outside C16's quantifier. *)
 Theorem C16_concurrent_dial_leak_refuted : forall u,
   let '(s, a, b) := run2 p_init u AtRead AtRead leak_sched in
   a = Done 0 /\ b = Done 1 /\ orphan s 0 = true /\ count_dials s u = 2 /\ wf s /\
@@ -199,3 +201,34 @@ Theorem C16_relay_within_limits_nonvacuous :
   relay_sized 1048576 8388608 2097152 10 = mksized false false 8.
 Proof. exact relay_within_limits_nonvacuous. Qed.
 Print Assumptions C16_relay_within_limits_nonvacuous.
+
+(* The code as it is (since 8fc2c4a): Get = read-locked lookup; dial; atomic check-and-set
+   (setIfAbsent).  For EVERY schedule of any number of concurrent Gets for one target, from any
+   well-formed state without orphans: once all callers have finished, the state is well-formed,
+   every connection ever dialled is pooled or closed (no orphans), and every caller was handed
+   the live connection that is pooled for the target. *)
+Theorem C16_concurrent_gets_converge : forall sched s u n,
+  wf s -> accounted s ->
+  let s' := fst (grun s u (repeat GRead n) sched) in
+  let ths' := snd (grun s u (repeat GRead n) sched) in
+  forallb g_done ths' = true ->
+  wf s' /\ accounted s' /\ (forall c, orphan s' c = false) /\
+  forall c, In (GDone c) ths' -> holds s' u c.
+Proof. exact concurrent_gets_converge. Qed.
+Print Assumptions C16_concurrent_gets_converge.
+
+(* ... hence exactly one connection: all callers share it *)
+Theorem C16_concurrent_gets_one_connection : forall sched s u n c1 c2,
+  wf s -> accounted s ->
+  let ths' := snd (grun s u (repeat GRead n) sched) in
+  forallb g_done ths' = true -> In (GDone c1) ths' -> In (GDone c2) ths' -> c1 = c2.
+Proof. exact concurrent_gets_one_connection. Qed.
+Print Assumptions C16_concurrent_gets_one_connection.
+
+(* the schedule that leaked before the repair: both miss, both dial, both reach the
+   check-and-set; the second connection is closed and both callers get connection 0 *)
+Theorem C16_concurrent_gets_nonvacuous : forall u,
+  let r := grun p_init u [GRead; GRead] [0; 1; 0; 1; 0; 1]%nat in
+  snd r = [GDone 0; GDone 0] /\ p_pool (fst r) = [(u, 0)] /\ p_shut (fst r) = [1] /\ count_dials (fst r) u = 2.
+Proof. exact concurrent_gets_nonvacuous. Qed.
+Print Assumptions C16_concurrent_gets_nonvacuous.
